@@ -177,6 +177,9 @@ fn c13_rho_respects_margin_conditions() {
     } else if lb <= ub {
         assert!(rho >= lb && rho <= ub);
         if lb.is_finite() && ub.is_finite() { assert!(rho == (ub + lb) / 2.0); }
+        // a threshold is a number: when only one side is pinned (e.g. one-class with nu = 1: every variable at its bound)
+        // the published rho must still be finite (any value beyond the pinned side satisfies the margin conditions)
+        assert!(rho.is_finite());
     }
     kani::cover!(nfree == 0 && lb.is_finite() && ub.is_finite() && lb < ub);
     kani::cover!(nfree == 2);
@@ -220,12 +223,15 @@ fn c13_rho_nu_respects_margin_conditions() {
             if !at_upper[t] { if g[t] < ub2 { ub2 = g[t]; } } else { if g[t] > lb2 { lb2 = g[t]; } }
         }
     }
-    // both classes pinned from both sides (one variable at zero, one at its bound) and feasible
-    if lb1.is_finite() && ub1.is_finite() && lb2.is_finite() && ub2.is_finite() && lb1 <= ub1 && lb2 <= ub2 {
+    // feasible thresholds exist (every class has a member, so each class is pinned from at least one side)
+    if lb1 <= ub1 && lb2 <= ub2 {
+        // a class pinned from one side only (nu-SVC with nu = 1 on balanced classes: every variable at its bound) still gets a
+        // finite threshold: the published rho and r are numbers
         assert!(rho.is_finite() && r.is_finite());
         let (r1, r2) = (r + rho, r - rho);         // exact: small dyadic rationals
         assert!(r1 >= lb1 && r1 <= ub1);
         assert!(r2 >= lb2 && r2 <= ub2);
     }
+    kani::cover!(lb1.is_finite() && !ub1.is_finite() && lb2.is_finite() && !ub2.is_finite());   // everything at its bound
     kani::cover!(lb1.is_finite() && ub1.is_finite() && lb2.is_finite() && ub2.is_finite() && lb1 < ub1 && lb2 < ub2);
 }
